@@ -182,8 +182,51 @@ mod peer_connection_service;
 mod security;
 mod signature_verification_service;
 mod synchronisation;
+#[cfg(feature = "verif")]
+mod verif_hooks;
 
 use thiserror::Error;
+
+///
+/// verification hooks: re-export of crate internals for the external monitoring harness.
+/// compiled only with the `verif` feature, never in a normal build
+///
+#[cfg(feature = "verif")]
+pub mod verif {
+    pub mod configuration {
+        pub use crate::configuration::*;
+    }
+    pub mod database {
+        pub use crate::database::*;
+    }
+    pub mod date_utils {
+        pub use crate::date_utils::*;
+    }
+    pub mod discret {
+        pub use crate::discret::*;
+    }
+    pub mod event_service {
+        pub use crate::event_service::*;
+    }
+    pub mod network {
+        pub use crate::network::*;
+    }
+    pub mod peer_connection_service {
+        pub use crate::peer_connection_service::*;
+    }
+    pub mod security {
+        pub use crate::security::*;
+    }
+    pub mod signature_verification_service {
+        pub use crate::signature_verification_service::*;
+    }
+    pub mod synchronisation {
+        pub use crate::synchronisation::*;
+    }
+    pub mod hooks {
+        pub use crate::verif_hooks::*;
+    }
+}
 
 type Result<T> = std::result::Result<T, Error>;
 
